@@ -9,6 +9,7 @@ from scipy.spatial import Delaunay
 import finam as fm
 from finam import Info, Input, Output, Mask
 from finam.adapters.regrid import RegridNearest, RegridLinear
+from finam.errors import FinamDataError
 
 ID = "C16"
 LEVEL = "exploration"
@@ -108,7 +109,11 @@ def generate(tape, tier="quick"):
                                                  for _ in range(3)],
             # another variable on the very same source grid object, regridded by an adapter of its own with the other
             # source mask, is coupled first (one grid object shared by several outputs is the normal case in a model)
-            "sibling": tape.chance(1, 3)}
+            "sibling": tape.chance(1, 3),
+            # a source with an open (flexible) mask that delivers plain arrays first and a masked array later: the
+            # adapter's precomputed indices are for all source points, so it has to refuse - or to deliver the nearest
+            # UNMASKED value anyway; never a value from another location
+            "late_mask": tape.chance(1, 5)}
 
 
 def locations(sp, G):
@@ -235,9 +240,23 @@ def execute(sc):
         data[smask_flat] = POISON
         arr = data.reshape(sshape, order=sorder)
         payload = np.ma.array(arr, mask=smask, shrink=False) if use_smask else arr
+        late = bool(sc.get("late_mask")) and k >= 1 and not use_smask and sc["method"] == "nearest" and ns >= 3
+        if late:
+            lm_flat = np.array([bits[(i + 11) % len(bits)] for i in range(ns)])
+            if lm_flat.all() or not lm_flat.any():
+                lm_flat[:] = False
+                lm_flat[0] = True
+            data = fs.copy()
+            data[lm_flat] = POISON
+            payload = np.ma.array(data.reshape(sshape, order=sorder), mask=lm_flat.reshape(sshape, order=sorder), shrink=False)
         try:
             out.push_data(payload, dt(k))
             got = inp.pull_data(dt(k)).magnitude
+        except FinamDataError as e:
+            if late:
+                break           # refused: masked data under an open source mask
+            v("regrid-exception", type(e).__name__, f"publication {k}: {type(e).__name__}: {str(e)[:300]}; {short(sc)}")
+            break
         except Exception as e:
             v("regrid-exception", type(e).__name__, f"publication {k}: {type(e).__name__}: {str(e)[:300]}; {short(sc)}")
             break
@@ -266,6 +285,12 @@ def execute(sc):
             v("regrid-mask-leak", "poison", f"publication {k}: a masked source value reached an unmasked target location; {short(sc)}")
             break
         fsk = fs[keep]
+        d2k, dmink = d2, dmin
+        if late:
+            # accepted after all: then the nearest UNMASKED source of this publication counts
+            fsk = fs[~lm_flat]
+            d2k = ((dl[:, None, :] - sl[~lm_flat][None, :, :]) ** 2).sum(axis=2)
+            dmink = d2k.min(axis=1)
         for j in range(nd):
             if gmask[j]:
                 if sc["method"] == "nearest" and not dmask_flat[j]:
@@ -278,7 +303,7 @@ def execute(sc):
                     v("regrid-linear", "masked-inside", f"publication {k}: target {j} strictly inside the hull is masked; {short(sc)}")
                     break
                 continue
-            near = fsk[np.abs(d2[j] - dmin[j]) <= 1e-12]
+            near = fsk[np.abs(d2k[j] - dmink[j]) <= 1e-12]
             if sc["method"] == "nearest":
                 if not np.any(np.isclose(gflat[j], near, rtol=1e-12, atol=1e-9)):
                     v("regrid-identity" if sc["rel"] == "relayout" else "regrid-nearest", "value",
